@@ -14,7 +14,15 @@ func main() {
 	tier := flag.String("tier", "quick", "quick|thorough")
 	out := flag.String("out", "", "output directory")
 	seedS := flag.String("seed", "1", "seed")
+	resolve := flag.String("resolve", "", "directory whose model.txt holds verification queries to be answered")
 	flag.Parse()
+	if *resolve != "" {
+		if err := resolveQueries(*resolve); err != nil {
+			fmt.Fprintln(os.Stderr, "harness: resolve:", err)
+			os.Exit(2)
+		}
+		return
+	}
 	seed, _ := strconv.ParseUint(*seedS, 10, 64)
 	f, ok := props[*prop]
 	if !ok {
